@@ -298,6 +298,7 @@ static void write_objective (
 	char **colnames)
 {
 	int ri, i, k, var;
+	int nterms = 0;
 	EGLPNUM_TYPENAME_ILLwrite_lp_state ln, *line = &ln;
 
 	if (lp->probname != NULL)
@@ -327,6 +328,7 @@ static void write_objective (
 			EGLPNUM_TYPENAME_ILLwrite_lp_state_append (line, " ");
 			EGLPNUM_TYPENAME_ILLwrite_lp_state_append (line, colnames[ri]);
 			var++;
+			nterms++;
 
 			/* we put a least 4 terms on a line 
 			 * and then we stop after LINE_LEN or more characters 
@@ -357,6 +359,14 @@ static void write_objective (
 				EGLPNUM_TYPENAME_ILLwrite_lp_state_start (line);
 			}
 		}
+	}
+	if (nterms == 0 && lp->nstruct > 0)
+	{
+		/* an all-zero objective still carries its name: without a labelled
+		 * expression the reader names it "obj", which a row may be called */
+		EGLPNUM_TYPENAME_ILLwrite_lp_state_append (line, "0 ");
+		EGLPNUM_TYPENAME_ILLwrite_lp_state_append (line, colnames[0]);
+		var++;
 	}
 	if (var > 0)
 	{
